@@ -290,6 +290,28 @@ func c20Valid(tier string, seed int64, idx int, scratch string) rt.CaseResult {
 			}
 		}
 	}
+	// the documented errors must also be what inline.Open reports for an invalid configuration
+	for _, tc := range []struct {
+		name string
+		cfg  config.Config
+		want error
+	}{
+		{"empty-path", config.Config{Storage: config.Storage{DbPath: "", RootDirs: []string{filepath.Join(scratch, "r")}}}, fs_db.ErrEmptyDbPath},
+		{"empty-roots", config.Config{Storage: config.Storage{DbPath: filepath.Join(scratch, "d"), RootDirs: nil}}, fs_db.ErrEmptyRootDirs},
+	} {
+		c.Evals++
+		db, err := inline.Open(ctxBg, tc.cfg)
+		if err == nil {
+			db.Close()
+			c.Violate("open-accepts-invalid-config "+tc.name, "inline.Open accepted an invalid configuration", nil)
+			continue
+		}
+		if !errors.Is(err, tc.want) {
+			c.Violate("open-invalid-config-wrong-error "+tc.name, fmt.Sprintf("inline.Open(%s) = %v, which is not %v by errors.Is", tc.name, err, tc.want), nil)
+			continue
+		}
+		c.AddDistinct("open-invalid/" + tc.name)
+	}
 	// ParseConfig -> inline.Open -> ParseConfig: the documented defaults must survive
 	os.MkdirAll(scratch, 0o755)
 	wd, _ := os.Getwd()
